@@ -414,15 +414,7 @@ def refused_include_leaves_nothing(c, chk):
         sp = [e for e in p.events if e.kind == 'store' and e.addr == ('g', '@cfg_include_stack_ptr')]
         if sp:
             from .. import bufsize
-            net = 0
-            for e in sp:
-                # each store writes (the current depth) + k: the global is re-read after calls, so the steps are added up
-                got = bufsize.lin(e.val)
-                lds = [t for t in (got.terms if got is not None else {}) if t[0] == 'ld' and t[1] == ('g', '@cfg_include_stack_ptr')]
-                if got is None or len(got.terms) != 1 or len(lds) != 1 or got.terms[lds[0]] != 1:
-                    net = None
-                    break
-                net += got.const
+            net = bufsize.net_counter_change(sp, ('g', '@cfg_include_stack_ptr'))
             if net != 0:
                 unbalanced = unbalanced or (p, sp[-1], net)
     if bad is not None:
